@@ -51,7 +51,19 @@ def check_pair(viol, lab, f_call, f_s1, x, ref_f, n_expected, fd=True,
     else:
         plain = f_call(x.copy())
         res = f_s1(x.copy())
-    score, grad = res[0], np.asarray(res[1], dtype=float)
+    score = res[0]
+    # (the gradient handed out is the caller's: evaluations at another point do not
+    # change it)
+    grad_obj, grad = res[1], np.array(res[1], dtype=float, copy=True)
+    f_s1(x * 1.003 + 1e-3)
+    f_call(x * 0.998)
+    if np.shape(grad_obj) != grad.shape or not np.array_equal(
+            np.asarray(grad_obj, dtype=float), grad, equal_nan=True):
+        viol.append({'sub': 'retained', 'message': 'the sensitivities returned '
+                     'earlier changed when the object was evaluated at another '
+                     'point (%s)' % lab, 'expected': grad,
+                     'observed': np.asarray(grad_obj, dtype=float),
+                     'behaviour': 'retained'})
     plain2 = f_call(x.copy())   # history: call, S1, call
     res2 = f_s1(x.copy())
     if not tol.close(plain2, plain, rel, abs_) or \
@@ -435,7 +447,9 @@ def build(tier, seed):
     bases = [rp.Comp([rp.G(1), rp.P(1), rp.LN(1, False)]),
              rp.Comp([rp.H(1), rp.G(2, False)]),
              rp.Comp([rp.Cov(rp.G(1)), rp.LN(1), rp.P(1)]),
-             rp.Cov(rp.G(3), 2), rp.Cov(rp.P(3), 1)]
+             rp.Cov(rp.G(3), 2), rp.Cov(rp.P(3), 1),
+             # naive-pooled analyses with a pooled parameter fixed
+             rp.P(3), rp.Comp([rp.P(1), rp.P(2)])]
     for b in bases:
         for n_ids in range(1, max_ids + 1):
             n = rp.n_top(b, n_ids)
